@@ -339,7 +339,7 @@ impl Check for C11Check {
         }
         // small values at aligned fields: index / type-id confusion (self references, cycles)
         for &o in sweep.iter().filter(|o| **o % 4 == 0) {
-            for val in [0u32, 1, 2] {
+            for val in 0u32..10 {
                 if bytes[o..o + 4] == val.to_le_bytes() {
                     continue;
                 }
